@@ -365,6 +365,7 @@ type world struct {
 	stepEnd []int64
 	loadErr string
 	notify     chan struct{}
+	forcedDelay map[int]int64
 	appLogged  int
 	rpcStarted []rpcRec
 	viewAt     map[int][]string // publish step -> listing of the publisher's node at that instant
@@ -607,7 +608,7 @@ func (s seededReader) Read(p []byte) (int, error) {
 func newWorld(t *testing.T, c *Case, o *Outcome) *world {
 	w := &world{t: t, c: c, o: o, start: time.Now(), clients: map[int]*simClient{}, conns: map[[2]int]*grpc.ClientConn{},
 		blocked: map[[2]int]bool{}, rpcMode: map[[2]int]string{}, rpcN: map[[2]int]int{}, gossipN: map[[2]int]int{},
-		seed: c.Seed, stats: map[string]int64{}, leaveAt: map[[2]int]int64{}, lateGossip: map[[2]int]bool{}, notify: make(chan struct{}, 1), viewAt: map[int][]string{}, pingKnow: map[int64]pingKnowledge{}, knownAtStop: map[int]map[string]bool{}, stopAt: map[int]int64{}}
+		seed: c.Seed, stats: map[string]int64{}, leaveAt: map[[2]int]int64{}, lateGossip: map[[2]int]bool{}, notify: make(chan struct{}, 1), forcedDelay: map[int]int64{}, viewAt: map[int][]string{}, pingKnow: map[int64]pingKnowledge{}, knownAtStop: map[int]map[string]bool{}, stopAt: map[int]int64{}}
 	base := os.Getenv("VERIF_DATA")
 	if base == "" {
 		base = os.TempDir()
@@ -1059,7 +1060,15 @@ func (w *world) applyStep(e *event, s *Step) {
 		w.blocked = map[[2]int]bool{}
 		w.mu.Unlock()
 	case "stopnode":
-		w.stopNode(s.N, s.J)
+		if s.G {
+			w.stopNode(s.N, -1) // survivors are told by explicit "leaveat" steps only
+		} else {
+			w.stopNode(s.N, s.J)
+		}
+	case "leaveat": // observer N is told I left, J ms from now
+		w.push(&event{at: w.nowMs() + s.J, kind: "leave", i: s.N, j: int(s.I)})
+	case "latefrom": // every datagram node N gossips from now on takes I ms (no loss, no duplication)
+		w.forcedDelay[s.N] = s.I
 	case "rpcmode":
 		w.mu.Lock()
 		w.rpcMode[[2]int{s.N, int(s.I)}] = s.S
@@ -1377,6 +1386,10 @@ func (w *world) gossipFrom(n *simNode) {
 			w.statAdd("fault.gossip_dropped", 1)
 			continue
 		}
+		if fd, forced := w.forcedDelay[n.idx]; forced {
+			w.push(&event{at: w.nowMs() + fd, kind: "gossipdeliver", i: p.idx, j: n.idx, data: cp})
+			continue
+		}
 		d := int64(1 + r.Intn(int(maxd)))
 		if !w.settling() && r.Bool(0.1) && maxd > 30 {
 			d += int64(r.Intn(int(maxd) * 10)) // occasionally late enough to be overtaken
@@ -1502,9 +1515,9 @@ func (w *world) stopNode(i int, fixedDelay int64) {
 		}
 	}
 	for _, p := range w.nodes {
-		if p.alive {
+		if p.alive && fixedDelay >= 0 {
 			d := fixedDelay
-			if d <= 0 {
+			if d == 0 {
 				d = base + int64(w.keyed("leave", i, p.idx).Intn(int(spread)+1))
 			}
 			w.push(&event{at: w.nowMs() + d, kind: "leave", i: p.idx, j: i})
